@@ -23,7 +23,7 @@ VERIF = os.path.dirname(os.path.dirname(os.path.abspath(__file__)))
 EVID = os.environ.get("UJVC_EVID") or os.path.join(VERIF, "evidence")
 CONTRACT_MODULES = [
     "retry", "times", "filestore", "stores", "engine", "prepare", "coordinator", "queues", "runphys", "runpath", "rewrite", "stale", "pruning", "system", "plumbing",
-    "argnodes", "gather", "greedy", "cycles", "completion", "tracebacks", "progress", "frames", "kahn", "lemmas", "history", "render",
+    "argnodes", "gather", "greedy", "cycles", "completion", "misc", "tracebacks", "progress", "frames", "kahn", "lemmas", "history", "render",
 ]
 
 
